@@ -516,7 +516,7 @@ fn run_badly_scaled(case: u64, rng: &mut Rng, ev: &mut Ev) {
 
 pub fn run_case(ctx: &Ctx, case: u64, ev: &mut Ev) {
     let mut rng = Rng::derive(ctx.seed, "C10", case);
-    rng.big = ctx.tier == crate::Tier::Thorough && rng.chance(0.2);
+    rng.big = crate::draw_big(ctx, &mut rng);
     if case == 0 {
         run_regressions(case, ev);
     }
